@@ -54,8 +54,33 @@ func (o hop) String() string {
 	return "?"
 }
 
+// residueCheck (C16): every observation is made with all handles idle, so the directory must hold
+// exactly tables.list and the tables it names; anything else is appended to the status
+var residueCheck bool
+
+func residue(dir string) string {
+	listed := map[string]bool{"tables.list": true}
+	for _, n := range readList(dir) {
+		listed[n] = true
+	}
+	var extra []string
+	ents, _ := ioutil.ReadDir(dir)
+	for _, e := range ents {
+		if !listed[e.Name()] {
+			extra = append(extra, e.Name())
+		}
+	}
+	if len(extra) == 0 {
+		return ""
+	}
+	return "+residue[" + strings.Join(extra, ",") + "]"
+}
+
 // observation after an operation: status;tables;refs;logs
 func observe(st *reftable.Stack, dir string, status string) string {
+	if residueCheck {
+		status += residue(dir)
+	}
 	var tabs []string
 	for _, n := range readList(dir) {
 		var min, max uint64
@@ -514,7 +539,7 @@ func runHistories(c *ctx, which string) error {
 			obs = append(obs, observe(st, dir, status))
 			// every table file the stack code produced (Add, compaction) is judged by the spec decoder
 			for _, n := range readList(dir) {
-				if !seenTab[n] && which != "c15" {
+				if !seenTab[n] && which != "c15" && which != "c16" {
 					seenTab[n] = true
 					if data, err := ioutil.ReadFile(filepath.Join(dir, n)); err == nil {
 						c.emit("wellformed", hx(data)+"|"+fmt.Sprint(b2i(!cfg.Unaligned)), "ok")
